@@ -33,6 +33,8 @@ def _variant(base, rules=None, invariant=None):
     t = _cfg_text(base)
     if rules:
         t = t.replace("Rules <- AllRules", "Rules <- " + rules)
+        if rules in ("NoCow", "NoPosNoWrite"):
+            t = t.replace("AliasSafe = FALSE", "AliasSafe = TRUE")
     if invariant:
         t = "\n".join(l for l in t.splitlines() if not l.startswith("INVARIANT")) + "\nINVARIANT %s\n" % invariant
     return t
